@@ -8,6 +8,14 @@ var c01SpecialDocs = []string{
 	`{"a":{"b":1}}`, `[0,1]`, `[[1,2],5,6,7]`, `[[1,2,3],5]`, `[[0],5,6]`, `2147483648`, `1e308`, `[1e308,10]`, `{"a":1e308,"b":-1e308}`, `5e-324`, `9223372036854775807`, `[-9223372036854775808,1]`, `10000000000`, `[1.5,-1]`, `{"a":"2015-08-02","b":"2015-08-03"}`, `[[1],[[2]]]`, `{"a":null,"b":[]}`,
 }
 
+// c01SpelledDocs are decoded from their text in both number modes: the same number as integer and as double
+// at the ends of the int64 range and above 2^53 (json.Number keeps the two spellings apart; the other documents
+// reach json.Number mode through the shortest spelling of their float64 value)
+var c01SpelledDocs = []string{
+	`[-9223372036854775808,-9223372036854775808.0]`, `[9223372036854775807,9223372036854775808.0]`, `{"a":-9223372036854775808,"b":-9.223372036854775808e18}`,
+	`[9007199254740993,9007199254740992.0]`, `[1,1.0,1e0]`, `[9223372036854775807,9223372036854775807.0]`,
+}
+
 func c01Docs(k int) []docEntry {
 	vals := Docs(k, stdScalars, stdKeys)
 	for _, s := range c01SpecialDocs {
@@ -17,7 +25,11 @@ func c01Docs(k int) []docEntry {
 	for _, s := range []string{`1e400`, `-1e400`, `[1,1e400]`, `{"a":-1e400}`, `1e-400`} {
 		vals = append(vals, mustDoc(s, "float64"))
 	}
-	return makeDocs(vals)
+	out := makeDocs(vals)
+	for _, s := range c01SpelledDocs {
+		out = append(out, docEntry{text: s, f: mustDoc(s, "float64"), n: mustDoc(s, "number")})
+	}
+	return out
 }
 
 func c01Cfgs(hasVar, hasDT bool) []sweepCfg {
@@ -45,7 +57,7 @@ func checkC01(c Case) *Failure {
 }
 
 func runC01(r *Run) {
-	r.Rule("every abstract path with <= N nodes over the full language (7 primaries, 31 accessor/method steps incl. .decimal and the six datetime methods, filters, unary/binary arithmetic, six comparisons, && || ! is unknown exists starts with like_regex, predicates as path items) plus every construct nested directly in filters and subscripts, x {lax,strict} x every JSON document with <= K nodes plus 27 special documents (datetime strings, numeric strings, negative/fractional/large numbers, nesting) x {float64,json.Number} x {verbose,silent} x {variable bound to a number, unbound, bound to an object, bound to an array} x {WithTZ, context zone} where the path can observe them; oracle: the reference interpreter (items in order, multiset where member order is open; error class); non-trivial = the reference yields items or an error")
+	r.Rule("every abstract path with <= N nodes over the full language (7 primaries, 31 accessor/method steps incl. .decimal and the six datetime methods, filters, unary/binary arithmetic, six comparisons, && || ! is unknown exists starts with like_regex, predicates as path items) plus every construct nested directly in filters and subscripts, x {lax,strict} x every JSON document with <= K nodes plus 36 special documents (datetime strings, numeric strings, negative/fractional/large numbers, nesting) and 6 documents holding one number in its integer and its double spelling at 2^53 and the ends of int64 (decoded per number mode); .decimal() with precision/scale outside the domain in every evaluation context (top level, after unwrapping, comparison/arithmetic/exists/connective operands inside filters, subscripts, predicate items) x {float64,json.Number} x {verbose,silent} x {variable bound to a number, unbound, bound to an object, bound to an array} x {WithTZ, context zone} where the path can observe them; oracle: the reference interpreter (items in order, multiset where member order is open; error class); non-trivial = the reference yields items or an error")
 	g := newFullGen()
 	N, K := 3, 3
 	if r.Thorough() {
@@ -61,6 +73,7 @@ func runC01(r *Run) {
 		es = append(es, eRoot(sFilter(cd.e)), eRoot(sAnyArray(), sFilter(cd.e)))
 	}
 	es = append(es, lastAfterFailingSubscript()...)
+	es = append(es, invalidArgumentsEverywhere()...)
 	docs := c01Docs(K)
 	r.Bound("documents", len(docs))
 	groups := map[[2]bool][]*Expr{}
@@ -77,6 +90,25 @@ func runC01(r *Run) {
 		}
 	}
 	r.Bound("paths", total)
+}
+
+// invalidArgumentsEverywhere: a method whose arguments are outside their domain (.decimal precision / scale) fails
+// with the non-suppressible error wherever it is evaluated: top level, after an unwrap, as operand of comparisons,
+// arithmetic, exists and the connectives inside filters, inside subscripts, as a predicate item; verbose and silent.
+func invalidArgumentsEverywhere() []*Expr {
+	var es []*Expr
+	for _, bad := range []*Expr{sDecimal(i64(1001), nil), sDecimal(i64(0), nil), sDecimal(i64(2), i64(1001)), sDecimal(i64(2), i64(-1001))} {
+		cur, root, arr := eCur(bad), eRoot(bad), eRoot(sAnyArray(), bad)
+		for _, cond := range []*Expr{eCmp(">", cur, eInt(1)), eCmp("==", eInt(1), cur), eExists(cur), eNot(eExists(cur)), eCmp(">", eArith("+", cur, eInt(1)), eInt(0)),
+			eCmp(">", eNeg(cur), eInt(0)), eOr(eCmp("==", eCur(), eInt(1)), eCmp(">", cur, eInt(1))), eAnd(eCmp("==", eCur(), eInt(1)), eCmp(">", cur, eInt(1))),
+			eCmp(">", root, eInt(1)), eStartsWith(cur, eStr("a"))} {
+			es = append(es, eRoot(sFilter(cond)), eRoot(sAnyArray(), sFilter(cond)))
+		}
+		es = append(es, root, arr, eRoot(sKey("a"), bad), eRoot(sAny(0, -1), bad), eArith("+", root, eInt(1)), eArith("*", eInt(2), arr), eNeg(root),
+			eRoot(sIndex(sub1(root))), eRoot(sIndex(subR(eInt(0), root))), eRoot(sAnyArray(), sFilter(eCmp("==", eCur(), eRoot(sIndex(sub1(root)))))),
+			eCmp(">", root, eInt(1)), eExists(arr), eOr(eCmp("==", eRoot(), eInt(1)), eCmp(">", root, eInt(1))), eRoot(bad, sMethod("type")), eInt(1).withSteps(bad), eNum(1.5).withSteps(bad, sMethod("string")))
+	}
+	return es
 }
 
 // lastAfterFailingSubscript: `last` (and the following subscripts) evaluated after a nested subscript
